@@ -47,5 +47,9 @@ def run(check):
         # ... and what f()'s function returns for a call goes through the translator's call translation (shared with C12.R2)
         rule_call_table(c, 'C20.R7')
     check.run_rule('C20.R7', r7)
+    from ..rules_defuse import rule_definite_assignment
+    check.run_rule('C20.R9', lambda c: rule_definite_assignment(
+        c, 'C20.R9', ['support:read_sig', 'support:func_code', 'support:make_func', 'support:f', 'support:s', 'support:func_from_sig',
+                      'support:bind_callsig', 'support:sort_callsigs', 'support:make_up_callsigs'], 'from the support helpers'))
     from ..rules_support import rule_read_sig_insertion_index
     check.run_rule('C20.R8', lambda c: rule_read_sig_insertion_index(c, 'C20.R8'))
